@@ -49,6 +49,10 @@ impl Check for C01 {
             .into()
     }
 
+    fn watchdog_secs(&self) -> u64 {
+        240 // (the one very long evaluation takes seconds; everything else microseconds)
+    }
+
     fn runs(&self, tier: Tier) -> u64 {
         match tier {
             Tier::Quick => 600_000,
@@ -59,7 +63,7 @@ impl Check for C01 {
     fn generate(&self, g: &mut Xo, tier: Tier, run: u64) -> VmSc {
         if run == 11 {
             // one very long evaluation (millions of steps) compared with the model at the end
-            return vmgen::gen_very_long(g, if tier == Tier::Quick { 3_000_000 } else { 30_000_000 });
+            return vmgen::gen_very_long(g, if tier == Tier::Quick { 3_000_000 } else { 10_000_000 });
         }
         if run % 2500 == 1249 {
             // a long execution of a looping program, compared with a model-only run at the end
